@@ -98,6 +98,17 @@ static bool heap_order_check(const struct cmi_heap_tag *a,
     return false;
 }
 
+#ifdef CIMBA_VERIF
+/*
+ * cmi_verif_event_queue - Verification hook (off by default): expose the
+ * thread-local event queue so that external monitors can walk it read-only.
+ */
+struct cmi_hashheap *cmi_verif_event_queue(void)
+{
+    return event_queue;
+}
+#endif /* CIMBA_VERIF */
+
 /*
  * cmb_event_queue_initialize - Set starting simulation time, allocate and initialize
  * hashheap for use. Allocates contiguous memory aligned to an integer number
